@@ -10,6 +10,7 @@ import (
 	"strings"
 
 	"nvharness/lib/c12facts"
+	"nvharness/lib/c12stress"
 	"nvharness/lib/c13run"
 	"nvharness/lib/corr"
 	"nvharness/lib/gofacts"
@@ -27,6 +28,8 @@ func main() {
 		extract(os.Args[2], os.Args[3])
 	case "corr":
 		corr.Main(spec(), os.Args[2:])
+	case "stressrun":
+		c12stress.ChildMain(os.Args[2:])
 	case "stress":
 		stress(os.Args[2:])
 	default:
@@ -457,22 +460,24 @@ func enumerate() []corr.Case {
 
 var enumCases []corr.Case
 
+func baseCount(tier string) int {
+	switch tier {
+	case "quick":
+		return 1600
+	case "thorough":
+		if enumCases == nil {
+			enumCases = enumerate()
+		}
+		return len(enumCases) + 24000
+	}
+	return 40000
+}
+
 func spec() corr.Spec {
 	return corr.Spec{
 		Property: "C13",
 		Fixed:    fixedCases,
-		Count: func(tier string) int {
-			switch tier {
-			case "quick":
-				return 1600
-			case "thorough":
-				if enumCases == nil {
-					enumCases = enumerate()
-				}
-				return len(enumCases) + 24000
-			}
-			return 40000
-		},
+		Count:    func(tier string) int { return baseCount(tier) + len(c12stress.Cases(tier, false)) },
 		Shards: func(tier string) int {
 			if tier == "quick" {
 				return 8
@@ -480,6 +485,9 @@ func spec() corr.Spec {
 			return 14
 		},
 		Gen: func(r *rng.R, tier string, i int) corr.Case {
+			if i >= baseCount(tier) { // the parallel stress class (child processes)
+				return c12stress.Cases(tier, false)[i-baseCount(tier)]
+			}
 			if tier == "thorough" {
 				if enumCases == nil {
 					enumCases = enumerate()
